@@ -171,7 +171,7 @@ func (e *Exec) fail(kind string, step int, format string, args ...any) *vt.Failu
 
 // CheckEntryResult compares one applied entry's result with the model's expectation.
 func CheckEntryResult(want model.ApplyResult, index uint64, got sm.Result) error {
-	if got.Value != want.Value {
+	if want.Txn && got.Value != want.Value {
 		return fmt.Errorf("result value %d want %d", got.Value, want.Value)
 	}
 	cr := &regattapb.CommandResult{}
